@@ -205,8 +205,11 @@ def array_pressure(ctx, rng):
         # reconstruction of ArrayPressureProfile is not monotone and the property's premise (decreasing levels)
         # does not apply
         P = 10 ** (rng.uniform(3, 7) - np.cumsum([rng.uniform(0.3, 0.7) for _ in range(n)]))
-        ap = ArrayPressureProfile(P)
+        # a table given top-down with reverse=True is the same profile
+        rev = rng.random() < 0.4
+        ap = ArrayPressureProfile(P[::-1].copy(), reverse=True) if rev else ArrayPressureProfile(P)
         ap.compute_pressure_profile()
+        ctx.count('array_pressure:reverse' if rev else 'array_pressure:as given')
         lv = np.array(ap.pressure_profile_levels)
         ctx.case(('array', n, float(P[0])))
         # the property asks for n+1 strictly decreasing levels around n layers (bracketing of every layer
